@@ -184,7 +184,8 @@ def plant(rng, host, what):
         elif variant == 'near-miss':
             # a first parameter whose name merely resembles 'next' and that can be supplied (it has a default): only the
             # first-parameter rule stands between this function and a chain that never receives a next
-            f['params'] = [[rng.pick(['next_hop', '_next', 'nextpage', 'next_', 'nnext', 'next2', 'Next', 'NEXT']), 'def']] + rest
+            taken = set(p[0] for p in rest)       # (the host may use one of these names already: unusual names are in the generator's vocabulary)
+            f['params'] = [[rng.pick([n for n in ['next_hop', '_next', 'nextpage', 'next_', 'nnext', 'next2', 'Next', 'NEXT'] if n not in taken]), 'def']] + rest
         else:
             f['params'] = [['nxt', 'req']] + rest
         label += ':%s:%s' % (phase, variant)
